@@ -1170,6 +1170,10 @@ class SVG:
 
         g = etree.Element(f"{{{svgns()}}}g")
         g.extend(svg)
+        # presentation attributes of the nested svg apply to its content, like a group's
+        for attr_name in sorted(_INHERITABLE_ATTRIB - {"transform", "clip-path", "overflow"}):
+            if attr_name in svg.attrib:
+                g.attrib[attr_name] = svg.attrib[attr_name]
 
         if "viewBox" in svg.attrib:
             # maps the viewBox onto the viewport (the identity when they coincide)
